@@ -2,6 +2,7 @@
  * VF_SEED_MODE=barrier:<n>  : hold every caller of json_c_get_random_seed() until n callers are inside (bounded spin,
  *                             50 ms), then hand out a DIFFERENT value to each -- a correct compare-and-swap publishes
  *                             exactly one of them; a plain store lets threads hash with different seeds.
+ * VF_SEED_MODE=minus1       : the first draw is -1 (the library's "unset" sentinel), later draws are distinct ordinary values
  * otherwise                 : VF_HASH_SEED or a fixed value. */
 #define _GNU_SOURCE 1
 #include <stdlib.h>
@@ -29,6 +30,13 @@ int vf_seed_hook(void)
 		}
 		{ int cur = __atomic_load_n(&vf_seed_entrants_max, __ATOMIC_RELAXED); while (inside > cur && !__atomic_compare_exchange_n(&vf_seed_entrants_max, &cur, inside, 0, __ATOMIC_RELAXED, __ATOMIC_RELAXED)) {} }
 		return 0x1000 + me * 7919;
+	}
+	if (m && !strcmp(m, "minus1")) {
+		/* the very first draw of the process is -1, the value the library uses as "not yet set": it has to draw again, and
+		 * nobody may ever hash with that first draw */
+		int me = __atomic_add_fetch(&tickets, 1, __ATOMIC_SEQ_CST);
+		{ int cur = __atomic_load_n(&vf_seed_entrants_max, __ATOMIC_RELAXED); while (1 > cur && !__atomic_compare_exchange_n(&vf_seed_entrants_max, &cur, 1, 0, __ATOMIC_RELAXED, __ATOMIC_RELAXED)) {} }
+		return me == 1 ? -1 : 0x2000 + me * 104729;
 	}
 	{ const char *e = getenv("VF_HASH_SEED"); if (e && *e) return (int)strtol(e, NULL, 0); }
 	return 0x5eed1234;
